@@ -156,7 +156,45 @@ Definition operand_temps (vp : string) (args : list node) : list string :=
                      | None => []
                      end) args.
 
+(** A spread operand is evaluated once into a temporary that is then spread twice (in the operation and in the hook's
+    argument list): the temporary must hold a COPY, [[...e]] -- spreading [e] itself twice would iterate it twice (a
+    generator is exhausted by the first, a proxy notices both).  Read on a sequence expression: the temporaries
+    that its hook calls spread, against what the same sequence assigns to them. *)
+Definition is_array_copy (rhs : node) : bool :=
+  match rhs with
+  | Node (K KArray _ _) [Node Lst [el]] => arg_is_spread el
+  | _ => false
+  end.
+
+Definition spread_temps (vp : string) (args : list node) : list string :=
+  flat_map (fun a => if arg_is_spread a
+                     then match arg_expr a with
+                          | Some e => match is_temp_ident vp e with Some t => [t] | None => [] end
+                          | None => []
+                          end
+                     else []) args.
+
+Definition noncopy_assigned (vp : string) (es : list node) : list string :=
+  flat_map (fun e => match e with
+                     | Node (K KAssign _ _) [_; lhs; rhs] =>
+                         match is_temp_ident vp lhs with
+                         | Some t => if is_array_copy rhs then [] else [t]
+                         | None => []
+                         end
+                     | _ => []
+                     end) es.
+
+Definition seq_spread_issue (vp : string) (n : node) : list string :=
+  match n with
+  | Node (K KSeq _ _) [Node Lst es] =>
+      let spread := flat_map (fun e => match hook_call e with Some (_, args) => spread_temps vp args | None => [] end) es in
+      let bad := noncopy_assigned vp es in
+      if existsb (fun t => existsb (String.eqb t) bad) spread then ["spread-temporary-not-a-copy"] else []
+  | _ => []
+  end.
+
 Fixpoint shape_issues (vp : string) (n : node) : list string :=
+  seq_spread_issue vp n ++
   (match hook_call n with
    | Some (_, a0 :: rest) =>
        match arg_expr a0 with
